@@ -273,6 +273,24 @@ where
     SP: StateSpace + Clone,
     SP::StateType: State + Clone,
 {
+    run_history_spaces(kind, params, &[space], problems, calls, cfg, on_call)
+}
+
+/// The general form: `spaces` holds either one space shared by all problems (one `Arc`, as a user
+/// who re-uses a space object would have) or one space per problem (re-setup on a different space).
+pub fn run_history_spaces<SP>(
+    kind: Kind,
+    params: &Params,
+    spaces: &[SP],
+    problems: &[Problem<SP::StateType>],
+    calls: &[Call],
+    cfg: &RunCfg,
+    on_call: &dyn Fn(&Call, bool),
+) -> Vec<CallRec<SP::StateType>>
+where
+    SP: StateSpace + Clone,
+    SP::StateType: State + Clone,
+{
     let log: Log<SP::StateType> = new_log();
     {
         let mut l = log.borrow_mut();
@@ -285,16 +303,17 @@ where
     verif::take_events();
     verif::set_virtual_time(if cfg.wallclock { None } else { Some(0) });
 
-    let ispace = Arc::new(ISpace {
-        inner: space,
-        log: log.clone(),
-    });
+    let ispaces: Vec<Arc<ISpace<SP>>> = spaces
+        .iter()
+        .map(|sp| Arc::new(ISpace { inner: sp.clone(), log: log.clone() }))
+        .collect();
     let pds: Vec<(Arc<PD<SP>>, Arc<IChecker<SP::StateType>>)> = problems
         .iter()
-        .map(|p| {
+        .enumerate()
+        .map(|(pi, p)| {
             (
                 Arc::new(ProblemDefinition {
-                    space: ispace.clone(),
+                    space: ispaces[if ispaces.len() == 1 { 0 } else { pi }].clone(),
                     start_states: p.starts.clone(),
                     goal: Arc::new(IGoal {
                         inner: p.goal.clone(),
